@@ -3,6 +3,7 @@
 R18.1 IV, CEK, GCM-KW IV, PBES2 salt, generated keys originate at a CSPRNG call made in the activation of the operation
 R18.2 the requested sizes fold to the sizes the algorithms need
 R18.3 the ephemeral key is generated per recipient on the recipient's curve and stored on the per-call Recipient only
+R18.5 the header objects the library writes p2s / p2c / epk / iv / tag into are per-message objects (never a default-argument or module-level object)
 R18.4 allow-list: `random` only in KeySet.pick_random_key, no seeding; no constant / parameter / field can reach the sinks
 ("pairwise distinct" as such is statistical and not decided)
 """
@@ -366,9 +367,87 @@ def r18_3(ctx) -> None:
                   construct="ephemeral key guard")
 
 
+# ----------------------------------------------------------------------------------------------- R18.5
+def _mutable_default(d: Optional[ast.AST]) -> bool:
+    return isinstance(d, (ast.List, ast.Dict, ast.Set, ast.ListComp, ast.DictComp, ast.SetComp)) or \
+        (isinstance(d, ast.Call) and not (isinstance(d.func, ast.Name) and d.func.id in ("frozenset", "tuple")))
+
+
+def _shared_object_origin(eng, fn: FunctionInfo, e: ast.AST, depth: int, seen: Set[Tuple[int, str]]) -> Optional[str]:
+    """why the object denoted by e (in fn) may be one object shared between calls, or None.
+    Object identity only (not member values): a parameter is followed to its default and to the arguments of its call sites."""
+    if depth > 5:
+        return None
+    if isinstance(e, ast.IfExp):
+        return _shared_object_origin(eng, fn, e.body, depth, seen) or _shared_object_origin(eng, fn, e.orelse, depth, seen)
+    if isinstance(e, ast.BoolOp):
+        for v in e.values:
+            w = _shared_object_origin(eng, fn, v, depth, seen)
+            if w:
+                return w
+        return None
+    if not isinstance(e, ast.Name):
+        return None  # display / call result / attribute of a per-call object
+    name = e.id
+    if name in fn.params:
+        key = (id(fn), name)
+        if key in seen:
+            return None
+        seen.add(key)
+        d = fn.param_default(name)
+        if _mutable_default(d):
+            return f"default value `{norm(d)}` of parameter {name!r} of {fn.short} (one object for every call that omits it)"
+        for s in sites_calling(eng, [fn]):
+            a = eng.cg.arg_for_param(s, fn, name)
+            if a is not None:
+                w = _shared_object_origin(eng, s.fn, a, depth + 1, seen)
+                if w:
+                    return w
+        return None
+    if name in eng.cg.local_names(fn):
+        for kind, dn, extra in eng.flow._defs(fn).get(name, []):
+            if kind == "assign" and not extra and isinstance(dn, ast.AST):
+                w = _shared_object_origin(eng, fn, dn, depth, seen)
+                if w:
+                    return w
+        return None
+    # a module-level object
+    if name in ("None", "True", "False"):
+        return None
+    return f"module-level object `{name}` (shared by every call)"
+
+
+def r18_5(ctx) -> None:
+    """the header objects that receive the library-written p2s / p2c / epk / iv / tag are per message: a shared one makes
+    `if "p2s" not in headers` find the previous message's salt"""
+    eng = ctx.eng
+    P = eng.prog
+    n = 0
+    for cname, attr in (("rfc7516.models:Recipient", "header"), ("rfc7516.models:CompactEncryption", "protected"), ("rfc7516.models:BaseJSONEncryption", "protected"),
+                        ("rfc7516.models:BaseJSONEncryption", "unprotected")):
+        c = P.cls(cname)
+        for m in c.methods.values():
+            sn = m.self_name
+            if sn is None:
+                continue
+            for node in fn_nodes(m):
+                if isinstance(node, (ast.Assign, ast.AnnAssign)):
+                    tgs = node.targets if isinstance(node, ast.Assign) else [node.target]
+                    for tg in tgs:
+                        if isinstance(tg, ast.Attribute) and tg.attr == attr and norm(tg.value) == sn and node.value is not None:
+                            n += 1
+                            why = _shared_object_origin(eng, m, node.value, 0, set())
+                            ctx.check(why is None, "R18.5", m, node, f"{m.short} :: {sn}.{attr} = {norm(node.value)[:40]}",
+                                      f"the header object that receives the library-written p2s / p2c / epk / iv / tag can be an object shared between messages: {why}; "
+                                      "a later encryption then finds the earlier salt input in its headers and re-uses it", "per-message object (caller's argument for this call or a fresh dict)",
+                                      construct=f"{c.name}.{attr} object")
+    ctx.count("R18.5", n, 5, "stores of per-message header objects")
+
+
 def run(ctx) -> None:
     ctx.guard(r18_1)
     ctx.guard(r18_2)
     ctx.guard(r18_3)
+    ctx.guard(r18_5)
     ctx.assume("secrets.token_bytes / os.urandom / pyca key generators are cryptographically strong sources")
     ctx.note("'pairwise distinct, no fixed bits' is statistical; decided instead: no constant, counter, cache, parameter or field can reach the sinks")
